@@ -29,7 +29,9 @@ lines=['# Seeded changes: what is kept here and which check catches what','',
  'Confirmation = in a scratch worktree: the demonstration passes on the unchanged code, fails with the patch, and the full suite passes with the patch.',
  'Detection = `tools/try_seed.sh <patch> <property>` (applies the patch to /repo transiently, runs the quick check, reverts).','',
  '| seed | where | confirmed | first run (rounds 2-5) | check result now | first obligations reported | written after the seed was seen |','|---|---|---|---|---|---|---|']
+_only=os.environ.get('ROUNDS','').split(',') if os.environ.get('ROUNDS') else None
 for rd,seeddir,fixdir,conf,runs in rounds:
+    if _only and rd not in _only: continue
     confd={}
     if os.path.exists(conf):
         for l in open(conf):
@@ -81,5 +83,6 @@ for rd in ('r1','r2','r3','r4','r5'):
     firsts=[l for l in kept if l.split('|')[4].strip().startswith('caught')]
     fr = 'not recorded (the checks were being written while these seeds came in)' if rd=='r1' else f'{len(firsts)}'
     summ.append(f'| {rd} | {len(kept)} | {len(caught)} | {fr} |')
-open(ROOT+'/RESULTS.md','w').write('\n'.join(lines+summ)+'\n')
+if not _only:
+    open(ROOT+'/RESULTS.md','w').write('\n'.join(lines+summ)+'\n')
 print('\n'.join(lines[-45:]))
